@@ -338,9 +338,9 @@ def rule_r3_closures(text, closures, applied, emit_tag):
     closures: {ordinal: {'params':..., 'ret':..., 'requires':[lines], 'ensures':[lines]}}"""
     if not closures:
         return text
-    st = _lex(text)
-    cl = find_closures(st)
     for k in sorted(closures, reverse=True):
+        st = _lex(text)
+        cl = find_closures(st)
         if k > len(cl):
             raise Undecided(f'lost anchor: closure #{k} not found (function has {len(cl)})')
         i, j = cl[k - 1]
@@ -363,6 +363,26 @@ def rule_r3_closures(text, closures, applied, emit_tag):
             hdr += '\n ensures ' + '\n'.join(spec['ensures'])
         text = text[:st[i].start] + hdr + '\n' + body + text[body_end:]
         applied.append(f'R3(closure#{k})')
+    return text
+
+
+def rule_r5_lettype(text, lettypes, applied):
+    """`let [mut] NAME = ..` gets an explicit type (annotation only; rustc rejects a wrong one)"""
+    for name, ty in lettypes.items():
+        st = _lex(text)
+        hit = None
+        for i, t in enumerate(st):
+            if t.kind == 'ident' and t.text == 'let':
+                j = i + 1
+                if st[j].text == 'mut':
+                    j += 1
+                if st[j].text == name and st[j + 1].text == '=':
+                    hit = j
+                    break
+        if hit is None:
+            raise Undecided(f'lost anchor: `let {name} =` not found for R5')
+        text = text[:st[hit].end] + f': {ty}' + text[st[hit].end:]
+        applied.append(f'R5(let {name}: type)')
     return text
 
 
@@ -558,7 +578,7 @@ def new_fn_spec(attrs):
         'id': attrs['id'], 'file': attrs['file'], 'name': attrs['name'], 'container': attrs.get('in'),
         'props': [p for p in attrs.get('props', '').split(',') if p],
         'ret': None, 'requires': [], 'ensures': [],  # ensures: list of {'label','props','lines'}
-        'loops': {}, 'folds': {}, 'closures': {}, 'ats': [], 'hoist': [], 'container_extra': [], 'attrs': [],
+        'loops': {}, 'folds': {}, 'closures': {}, 'ats': [], 'hoist': [], 'lettypes': {}, 'container_extra': [], 'attrs': [],
         'recommends': [], 'decreases': [], 'stub_only': attrs.get('stub') == 'only', 'trusted_reason': attrs.get('trusted'),
     }
 
@@ -650,6 +670,9 @@ def parse_spec_file(path):
             sect = a['lines']
         elif kw == 'hoist':
             cur['hoist'] += pos
+            sect = None
+        elif kw == 'lettype':
+            cur['lettypes'][pos[0]] = attrs['type']
             sect = None
         elif kw == 'container-extra':
             sect = cur['container_extra']
@@ -749,6 +772,7 @@ class Generator:
             text = rule_r2_fold(text, spec['folds'], applied)
             text = rule_r1_break_value(text, applied)
             text = rule_r3_closures(text, spec['closures'], applied, None)
+            text = rule_r5_lettype(text, spec['lettypes'], applied)
             segs = splice_annotations(text, spec)
         for h in hoisted:
             out.emit(re.sub(r'#\[derive\([^)]*\)\]', '#[derive(PartialEq)]', h) + '\n', {'fn': fnid, 'section': 'hoisted', 'label': 'hoisted', 'props': []})
